@@ -6,8 +6,11 @@ import (
 
 	cs "github.com/lianxiangcloud/linkchain/consensus"
 
+	"github.com/lianxiangcloud/linkchain/types"
+
 	"verif/sim/kernel"
 	"verif/sim/simnode"
+	"verif/sim/txgen"
 )
 
 // truth is what the load functions returned for one height when it was the
@@ -24,7 +27,6 @@ type pruneRun struct {
 	w     *world
 	c     *kernel.Ctx
 	g     *durable
-	plan  map[uint64][]*plannedTx
 	truth map[uint64]*truth
 	trace []string
 	// read tap used as the runaway guard of a pruning call
@@ -38,7 +40,6 @@ const pruneReadBudget = 60000
 
 func newPruneRun(w *world, g *durable) *pruneRun {
 	p := &pruneRun{w: w, c: w.c, g: g, truth: map[uint64]*truth{}}
-	p.plan = w.planWorkload(w.conf.Blocks+4, 2)
 	return p
 }
 
@@ -273,12 +274,18 @@ func (p *pruneRun) run() {
 	defer func() { n.stop() }()
 	n.settle()
 	var changes []uint64
+	wl := p.w.c.Tape.Fork("workload-shape")
 	lastChanged := uint64(0)
 	grow := func(to uint64, phase string) bool {
 		for h := n.storeHeight() + 1; h <= to; h++ {
-			for _, pt := range p.plan[h] {
-				n.chain.RegisterRate()
-				n.chain.Mempool.AddTx("", pt.tx)
+			g := p.w.txg
+			for k := wl.Range(0, 2); k > 0; k-- {
+				if it := g.Next(); it != nil {
+					if tx, err := txgen.CloneTx(it.Tx); err == nil {
+						n.chain.RegisterRate()
+						kernel.Try(func() { n.chain.Mempool.AddTx("", tx) })
+					}
+				}
 			}
 			if !n.driveTo(h, 80) {
 				why := fmt.Sprintf("store height %d, consensus height %d", n.storeHeight(), n.consHeight())
@@ -291,6 +298,15 @@ func (p *pruneRun) run() {
 					c.Violate("prune-chain-halts", "C13/prune/chain-halts/"+rel(K, n.storeHeight()), "%s: the chain cannot commit height %d: %s", phase, h, why)
 				}
 				return false
+			}
+			if blk := n.chain.BlockStore.LoadBlock(h); blk != nil {
+				var rs types.Receipts
+				if rc := n.chain.BlockStore.GetReceipts(h); rc != nil {
+					rs = *rc
+				}
+				if _, err := g.Committed(h, blk.Data.Txs, rs); err != nil {
+					g.Reset()
+				}
 			}
 			p.record(n, h)
 			if st := n.cs.GetState(); st.LastHeightValidatorsChanged != lastChanged {
